@@ -291,9 +291,12 @@ def run(facts, cg):
                 finding('R-EARLYEND', b.q, 'http-read_at', 'a short HTTP response to read_at is not turned into UnexpectedEnd')
         if in_io and reads_something(b):
             n_sites['io'] += 1
-            ok = any('UnexpectedEof' in show(simplify(T.of_rvalue(b, st['rv'], 0)))
-                     for bi in b.live for st in b.blocks[bi]['stmts'] if st['k'] == 'assign') or \
-                any(any(a['k'] == 'const' and 'UnexpectedEof' in str(a.get('s')) for a in t['args']) for bi, t in b.calls())
+            def _mentions_eof(b_):
+                return any('UnexpectedEof' in show(simplify(T.of_rvalue(b_, st['rv'], 0)))
+                           for bi in b_.live for st in b_.blocks[bi]['stmts'] if st['k'] == 'assign') or \
+                    any(any(a['k'] == 'const' and 'UnexpectedEof' in str(a.get('s')) for a in t['args']) for bi, t in b_.calls())
+            # (also inside a closure of this body: `outcome.and_then(|()| match received { 0 => Err(UnexpectedEof..), n => Ok(n) })`)
+            ok = _mentions_eof(b) or any(_mentions_eof(c_) for c_ in facts.bodies.values() if c_.raw['kind'] == 'Closure' and (c_.raw.get('parent') or '') == b.id)
             inst_io = {'rule': 'R-EARLYEND', 'function': b.q, 'early_end_is_error': ok}
             instances.append(inst_io)
             if not ok:
@@ -548,8 +551,23 @@ def run(facts, cg):
                 for st in g.blocks[bi]['stmts']:
                     if st['k'] == 'assign' and st['rv']['k'] == 'binop' and st['rv']['op'].startswith('Add'):
                         term = simplify(T.resolve_env(simplify(T.of_rvalue(g, st['rv'], 0))))
-                        consts = [n_[1] for n_ in walk(term) if n_[0] == 'const' and isinstance(n_[1], int)]
-                        if sum(consts) == 72 and has_call(term, '::len'):
+                        # the constants added along the spine of the sum (not those buried in what the length is the length of -
+                        # a capacity hint computed from the same numbers, say)
+                        consts, leaves = [], []
+
+                        def spine(x):
+                            while isinstance(x, tuple) and x[0] == 'cast':
+                                x = x[2]
+                            if isinstance(x, tuple) and x[0] == 'field' and x[2] == 0 and isinstance(x[1], tuple) and x[1][0] == 'binop':
+                                x = x[1]
+                            if isinstance(x, tuple) and x[0] == 'binop' and x[1] in ('Add', 'AddWithOverflow'):
+                                spine(x[2]); spine(x[3])
+                            elif isinstance(x, tuple) and x[0] == 'const' and isinstance(x[1], int):
+                                consts.append(x[1])
+                            else:
+                                leaves.append(x)
+                        spine(term)
+                        if sum(consts) == 72 and any(isinstance(l_, tuple) and l_[0] == 'call' and l_[1].endswith('::len') for l_ in leaves):
                             instances[-1]['default_offset'] = show(term)[:80]
         if 'default_offset' not in instances[-1]:
             finding('R-HEADERSEQ', b.q, 'default-offset', 'the default chunk data offset is not header length + 8 + 64')
